@@ -226,7 +226,7 @@ class ProbeNode(BaseNode):
         if self.do_log:
             if self.use_callback:
                 fn = lambda *a: _host_log(self.nid, names, *a)  # noqa: E731
-                io_callback(fn, None, eps, seq, ss.ts, ss.rng, ss.params.p, h, new_h, *flat, ordered=True)
+                jax.debug.callback(fn, eps, seq, ss.ts, ss.rng, ss.params.p, h, new_h, *flat, ordered=True)
             else:
                 _host_log(self.nid, names, eps, seq, ss.ts, ss.rng, ss.params.p, h, new_h, *flat)
         out = ProbeOut(nid=jnp.int32(self.nid), eps=eps, seq=seq, h=new_h)
